@@ -7,7 +7,8 @@ J ?= 12
 .PHONY: setup all coq extract driver clean prectable coqchk static
 
 setup: all
-all: coq driver
+all: coq
+	$(MAKE) driver
 
 coq/Makefile.coq: coq/_CoqProject
 	cd coq && coq_makefile -f _CoqProject -o Makefile.coq
@@ -21,15 +22,20 @@ prectable:
 coq: prectable coq/Makefile.coq
 	cd coq && timeout $(COQ_TIMEOUT) $(MAKE) -f Makefile.coq -j$(J)
 
-extract: coq
+# extraction and driver are rebuilt only when a compiled theory, Extract.v or driver.ml is newer (a check that runs while another one
+# starts must not find the driver half written: it is linked under a temporary name and moved into place)
+extract: build/extract/model.ml
+build/extract/model.ml: coq/extract/Extract.v $(wildcard coq/theories/*.vo)
 	mkdir -p build/extract
 	cp coq/extract/Extract.v build/extract/Extract.v
 	cd build/extract && timeout 600 coqc -Q ../../coq/theories RV Extract.v
 
-driver: extract
+driver: build/model_driver
+build/model_driver: build/extract/model.ml coq/extract/driver.ml
 	cp coq/extract/driver.ml build/extract/driver.ml
-	cd build/extract && timeout 600 ocamlfind ocamlopt -w -a -O2 -package str model.mli model.ml driver.ml -o ../model_driver 2>/dev/null || \
-	 (cd build/extract && timeout 600 ocamlfind ocamlopt -w -a -package str model.mli model.ml driver.ml -o ../model_driver)
+	cd build/extract && (timeout 600 ocamlfind ocamlopt -w -a -O2 -package str model.mli model.ml driver.ml -o ../model_driver.new 2>/dev/null || \
+	 timeout 600 ocamlfind ocamlopt -w -a -package str model.mli model.ml driver.ml -o ../model_driver.new)
+	mv -f build/model_driver.new build/model_driver
 
 # independent re-check of every property file and everything it depends on, with the axioms they rely on
 coqchk: coq
